@@ -314,6 +314,45 @@ func RunOnce(s Scenario, rep int, r *rand.Rand) (events []interface{}) {
 	return append([]interface{}{reset}, b.Env.Events...)
 }
 
+// concurrentRedefined: one redefined function, called by all goroutines at once with values of their own.  The
+// race detector is the only sensor of this part (nothing is recorded: the events of these calls are dropped).
+func (b *Built) concurrentRedefined(g int, opts []am.Arg) {
+	if b.S.Bad != "" {
+		return
+	}
+	rf, err := b.Target.Redefine(opts...)
+	if err != nil || rf == nil {
+		return
+	}
+	keep := len(b.Env.Events)
+	var wg sync.WaitGroup
+	for k := 1; k <= g; k++ {
+		wg.Add(1)
+		go func(k int) {
+			defer wg.Done()
+			defer func() { recover() }()
+			var args []am.Arg
+			for i, v := range rf.Input().Values() {
+				tn := TypeName(v.Type)
+				if strings.HasPrefix(tn, "?") {
+					return
+				}
+				val := MkValue(tn, StaleTok+100*k+i).Interface()
+				if v.Name != "" {
+					args = append(args, am.NamedSubtype(v.Name, val, v.Subtype))
+				} else {
+					args = append(args, am.TypedSubtype(val, v.Subtype))
+				}
+			}
+			rf.Call(args...)
+		}(k)
+	}
+	wg.Wait()
+	b.Env.mu.Lock()
+	b.Env.Events = b.Env.Events[:keep]
+	b.Env.mu.Unlock()
+}
+
 // StaleTok is the first token of values that belong to ANOTHER use of the target's value sets (wrapperCall): no
 // scenario supplies them, so an execution that receives one has been handed a value nobody gave to this call.
 const StaleTok = 900000
@@ -628,10 +667,11 @@ func RunConcurrent(s Scenario, c ConcConfig, r *rand.Rand, gid func() int, regis
 			}
 			out = append(out, apiArg(l, vals[j], 1)) // variant 1: NamedSubtype / TypedSubtype spellings
 		}
-		// run-once converters as pre-built objects, the others as one raw Converter(fn, fn, ...) option
+		// run-once converters as pre-built objects; the others as one raw Converter(fn, fn, ...) option or, in every
+		// other scenario, as pre-built objects too (one *Func, with its value sets, used by all goroutines at once)
 		var raw []interface{}
 		for i, c := range b.Convs {
-			if s.Convs[i].Once {
+			if s.Convs[i].Once || s.Sid%2 == 0 {
 				out = append(out, am.ConverterFunc(c))
 			} else {
 				raw = append(raw, c.Func())
@@ -699,6 +739,7 @@ func RunConcurrent(s Scenario, c ConcConfig, r *rand.Rand, gid func() int, regis
 	close(start)
 	wg.Wait()
 	env.PhaseOf = nil
+	b.concurrentRedefined(c.G, sharedOpts)
 	evs := append([]interface{}{reset}, env.Events...)
 	for k := 1; k <= c.G; k++ {
 		evs = append(evs, rets[k])
